@@ -97,10 +97,13 @@ def cases(tier: str, seed: int) -> List[Dict[str, Any]]:
     return out
 
 
-def _eq(a: float, b: float) -> bool:
+def _eq(a: float, b: float, scale: float = 0.0) -> bool:
+    """statistics agree to float32 reduction accuracy; `scale` = max |x| of the tensor: vectorised
+    kernels (erf, exp) may differ in the last bits between two executions on differently aligned
+    buffers, which shows up in abs_min / abs_mean of small values as an ABSOLUTE error of ~1e-7*scale"""
     if isinstance(a, float) and isinstance(b, float) and math.isnan(a) and math.isnan(b):
         return True
-    return abs(a - b) <= 1e-5 * max(abs(a), abs(b)) + 1e-7
+    return abs(a - b) <= 1e-5 * max(abs(a), abs(b)) + 1e-7 + 2e-6 * scale
 
 
 def run_case(case: Dict[str, Any]) -> Dict[str, Any]:
@@ -230,7 +233,7 @@ def run_case(case: Dict[str, Any]) -> Dict[str, Any]:
             continue
         nfloat += 1
         st = stats(v)
-        bad = [k for k in st if not _eq(float(getattr(mt.fwd, k)), float(st[k]))]
+        bad = [k for k in st if not _eq(float(getattr(mt.fwd, k)), float(st[k]), float(st["abs_max"]) if k != "numel" else 0.0)]
         if bad:
             viol.append({"key": ident + f"|forward_metric_wrong|{'+'.join(bad)}",
                          "msg": f"node {node.name}: recorded {mt.fwd} vs recomputed {st}\n" + src})
@@ -242,7 +245,7 @@ def run_case(case: Dict[str, Any]) -> Dict[str, Any]:
             viol.append({"key": ident + "|backward_metric_missing", "msg": f"node {node.name}\n" + src})
         else:
             sg = stats(g)
-            bad = [k for k in sg if not _eq(float(getattr(mt.bwd, k)), float(sg[k]))]
+            bad = [k for k in sg if not _eq(float(getattr(mt.bwd, k)), float(sg[k]), float(sg["abs_max"]) if k != "numel" else 0.0)]
             if bad:
                 viol.append({"key": ident + f"|backward_metric_wrong|{'+'.join(bad)}",
                              "msg": f"node {node.name}: recorded {mt.bwd} vs total gradient {sg}\n" + src})
